@@ -406,6 +406,13 @@ def judge(case, im, mo):
                 if (g['model_fluxes'] is not None) != bool(case['convolved']):
                     fail.append('convolved: predicted fluxes %s although output_convolved=%r' % ('present' if g['model_fluxes'] is not None else 'absent', case['convolved']))
                     break
+        # the shared metadata against what was handed to fit(), not only against the object interface: the extinction law in the file is
+        # the law that was given (in whatever units it was given)
+        for g in im['got'][:1]:
+            ew, ec = g['meta']['ext_wav'], g['meta']['ext_chi']
+            xw, xc = case['ext']['wav'], case['ext']['chi']
+            if len(ew) != len(xw) or any(abs(a - b) > 1e-12 * abs(b) for a, b in zip(ew, xw)) or any(abs(a - b) > 1e-12 * abs(b) for a, b in zip(ec, xc)):
+                fail.append('meta: the extinction law read back from the file (%r micron, %r cm2/g ...) is not the law given to fit() (%r micron, %r cm2/g ...)' % (ew[:2], ec[:2], xw[:2], xc[:2]))
         if not fail and im.get('want_reuse') and im['want_reuse'] != im['want']:
             bad = next((i for i, (a, b) in enumerate(zip(im['want_reuse'], im['want'])) if a != b), 0)
             fail.append('kept: results of Fitter.fit kept while their Source object was re-used for the next sources no longer describe their own source (first difference at result %d: %r)'
